@@ -580,3 +580,27 @@ package model
 //@   loop 2 invariant [no_self_no_duplicates] forall i int, m int :: 0 <= i && i < iter && 0 <= m && m < len(ranking[i].BetterThanOrSameAs) ==>
 //@             ranking[i].BetterThanOrSameAs[m] != alternativeResults[i].Alternative.Id
 //@             && (forall q int :: m < q && q < len(ranking[i].BetterThanOrSameAs) ==> ranking[i].BetterThanOrSameAs[m] != ranking[i].BetterThanOrSameAs[q])
+
+// ---- decision-maker-helpers.go: Rank (C01, C03, C04)
+
+//@ func Rank
+//@   property C01 C03 C04
+//@   fnparam pref pure
+//@   fnparam pref ensures result != nil && typeis(result.Evaluation, EvaluationSingleValue) && result.Alternative == *arg0
+//@   requires [distinct] forall i int, j int :: 0 <= i && i < j && j < len(dmp.ConsideredAlternatives) ==> dmp.ConsideredAlternatives[i].Id != dmp.ConsideredAlternatives[j].Id
+//@   ensures [one_entry_each] fresh(result) && len(*result) == len(dmp.ConsideredAlternatives)
+//@   ensures [C03 entries_are_evaluations] forall i int :: 0 <= i && i < len(*result) ==> typeis((*result)[i].Evaluation, EvaluationSingleValue)
+//@             && exists j int :: 0 <= j && j < len(dmp.ConsideredAlternatives) && (*result)[i].Alternative == dmp.ConsideredAlternatives[j]
+//@             && val((*result)[i].AlternativeResult) == round8(val(*appptr(pref, dmp.ConsideredAlternatives[j])))
+//@   ensures [all_considered_present] forall j int :: 0 <= j && j < len(dmp.ConsideredAlternatives) ==> exists i int :: 0 <= i && i < len(*result) && (*result)[i].Alternative == dmp.ConsideredAlternatives[j]
+//@   ensures [C04 ordered_by_value_then_id] forall i int, j int :: 0 <= i && i < j && j < len(*result) ==> !ordered((*result)[j].AlternativeResult, (*result)[i].AlternativeResult)
+//@   ensures [links_complete] forall i int, j int :: 0 <= i && i < len(*result) && 0 <= j && j < len(*result) && linkedR(*result, val((*result)[i].AlternativeResult), (*result)[i].Alternative.Id, j) ==>
+//@             exists m int :: 0 <= m && m < len((*result)[i].BetterThanOrSameAs) && (*result)[i].BetterThanOrSameAs[m] == (*result)[j].Alternative.Id
+//@   ensures [links_sound] forall i int, m int :: 0 <= i && i < len(*result) && 0 <= m && m < len((*result)[i].BetterThanOrSameAs) ==>
+//@             exists j int :: 0 <= j && j < len(*result) && (*result)[i].BetterThanOrSameAs[m] == (*result)[j].Alternative.Id && linkedR(*result, val((*result)[i].AlternativeResult), (*result)[i].Alternative.Id, j)
+//@   ensures [C01 no_self_no_duplicates] forall i int, m int :: 0 <= i && i < len(*result) && 0 <= m && m < len((*result)[i].BetterThanOrSameAs) ==>
+//@             (*result)[i].BetterThanOrSameAs[m] != (*result)[i].Alternative.Id
+//@             && (forall q int :: m < q && q < len((*result)[i].BetterThanOrSameAs) ==> (*result)[i].BetterThanOrSameAs[m] != (*result)[i].BetterThanOrSameAs[q])
+//@   loop 1 invariant [ctx] fresh(results) && len(results) == len(dmp.ConsideredAlternatives)
+//@   loop 1 invariant [evaluated] forall k int :: 0 <= k && k < iter ==> typeis(results[k].Evaluation, EvaluationSingleValue)
+//@             && results[k].Alternative == dmp.ConsideredAlternatives[k] && results[k] == *appptr(pref, dmp.ConsideredAlternatives[k])
